@@ -44,7 +44,7 @@ impl FuzzCase for c07::C07 {
     fn decode(u: &mut Unstructured) -> arbitrary::Result<Option<c07::Case>> {
         let p = gb::pair(u)?;
         let (xf, vsel) = (gb::xf(u)?, u.arbitrary()?);
-        Ok(p.filter(|p| !p.a.is_empty() && !p.b.is_empty()).map(|p| c07::Case { a: p.a, b: p.b, xf, vsel, trusted: true }))
+        Ok(p.filter(|p| !p.a.is_empty() && !p.b.is_empty()).map(|p| c07::Case { a: p.a, b: p.b, xf, vsel, near: None, trusted: true }))
     }
 }
 impl FuzzCase for c17::C17 {
